@@ -393,32 +393,36 @@ def all_jobs():
             continue
         ftype = BUILTIN_FIXED_TYPE.get(name)
         follows = name in BUILTIN_FOLLOWS_COMPLEX
+        tyform = 'BUILTIN_TYPE_SAME_AS_ARG1' if name in BUILTIN_SAME_AS_ARG1 else ('BUILTIN_TYPE_ARITH2' if name in BUILTIN_ARITH2 else ('BUILTIN_TYPE_POW' if name == 'pow' else None))
         J.append(dict(id='bi_' + name, src='blocc/builtin/builtin_%s.cpp' % name, contract='builtin_generic.c', enforce=mg, roots=[mg], replace=list(MEMB_REPLACE) + [V_CTOR_IMAG], cut=list(MEMB_CUT) + [V_CTOR_IMAG],
-                      props=['C01', 'C05'] + (['C02'] if (ftype or follows) else []) + (['C03', 'C04', 'C10'] if name == 'int' else []), pretty='bloc::%s::value' % cls, canaries=['normal', 'exceptional'], unwind=uw,
+                      props=['C01', 'C05'] + (['C02'] if (ftype or follows or tyform) else []) + (['C03', 'C04', 'C10'] if name in ('int', 'num') else []), pretty='bloc::%s::value' % cls, canaries=['normal', 'exceptional'], unwind=uw,
                       unwind_why=uw_why,
-                      defines=['BUILTIN_FN=' + mg, 'BUILTIN_CLASS=' + cls, 'BUILTIN_NARGS=%d' % nargs] + (['BUILTIN_STR_MAX=%d' % strmax] if strmax else []) + (['BUILTIN_TYPE=' + ftype] if ftype else []) + (['BUILTIN_TYPE_FOLLOWS_COMPLEX'] if follows else []) + (['BUILTIN_IS_INT'] if name == 'int' else []),
+                      defines=['BUILTIN_FN=' + mg, 'BUILTIN_CLASS=' + cls, 'BUILTIN_NARGS=%d' % nargs] + (['BUILTIN_STR_MAX=%d' % strmax] if strmax else []) + (['BUILTIN_TYPE=' + ftype] if ftype else []) + (['BUILTIN_TYPE_FOLLOWS_COMPLEX'] if follows else []) + ([tyform] if tyform else []) + (['BUILTIN_ABS'] if name == 'abs' else []) + (['BUILTIN_IS_INT'] if name == 'int' else []) + (['BUILTIN_IS_NUM'] if name == 'num' else []),
                       replay=dict(kind='evalnode', headers=['blocc/builtin/builtin_%s.h' % name], mirror_class=cls, children=nargs,
                                   construct='new bloc::%s(std::vector<bloc::Expression*>{%s})' % (cls, ', '.join('kids[%d]' % i for i in range(nargs))),
                                   script='%s(%s)' % (name, ', '.join('{%d}' % i for i in range(nargs)))),
                       **({'bounded_inputs': True, 'thorough': dict(unwind=uw + 6, unwind_why=uw_why.replace('at most 2', 'at most 4') + ' (thorough tier)',
                                                                      defines=['BUILTIN_FN=' + mg, 'BUILTIN_CLASS=' + cls, 'BUILTIN_NARGS=%d' % nargs, 'BUILTIN_STR_MAX=%d' % (strmax + 2)] + (['BUILTIN_TYPE=' + ftype] if ftype else []))} if strmax else {}),
                       structs=DEFAULT_STRUCTS + [STD_STRING, VEC_CHAR, 'bloc::Imaginary', 'std::complex<double>', 'bloc::Context', 'bloc::' + cls]))
-        if ftype or follows:
+        if ftype or follows or tyform:
             # the static half: type() of the same node
             tmg = '_ZNK4bloc%d%s4typeERNS_7ContextE' % (len(cls), cls)
             J.append(dict(id='bt_' + name, src='blocc/builtin/builtin_%s.cpp' % name, contract='builtin_type_generic.c', enforce=tmg, roots=[tmg], replace=['VCALL_Expression_type'],
                           cut=['VCALL_Expression_type', RTE_CTOR, RTE_CTOR_S], props=['C01', 'C02'], pretty='bloc::%s::type' % cls, canaries=['normal'],
-                          defines=['BUILTIN_TYPE_FN=' + tmg, 'BUILTIN_CLASS=' + cls] + (['BUILTIN_TYPE=' + ftype] if ftype else ['BUILTIN_TYPE_FOLLOWS_COMPLEX']),
+                          defines=['BUILTIN_TYPE_FN=' + tmg, 'BUILTIN_CLASS=' + cls] + (['BUILTIN_TYPE=' + ftype] if ftype else ([tyform] + (['BUILTIN_ABS'] if name == 'abs' else []) if tyform else ['BUILTIN_TYPE_FOLLOWS_COMPLEX'])),
                           structs=DEFAULT_STRUCTS + [STD_STRING, VEC_CHAR, 'bloc::Context', 'bloc::' + cls]))
     return J
 
 # builtins under the generic contract (name, class, number of arguments); see tools/try_builtins.sh for how the list was grown
 # compiled type of the builtins whose type() is a constant (blocc/builtin/builtin_<name>.h / .cpp): checked as C02
 BUILTIN_FIXED_TYPE = dict(atan2='NUMERIC',
-                          imag='NUMERIC', iphase='NUMERIC', iconj='IMAGINARY', bool='BOOLEAN', isnull='BOOLEAN', strlen='INTEGER', strpos='INTEGER', typeof='LITERAL', int='INTEGER', lower='LITERAL', upper='LITERAL',
+                          imag='NUMERIC', iphase='NUMERIC', iconj='IMAGINARY', bool='BOOLEAN', isnull='BOOLEAN', strlen='INTEGER', strpos='INTEGER', typeof='LITERAL', int='INTEGER', num='NUMERIC', isnum='BOOLEAN', getenv='LITERAL', lower='LITERAL', upper='LITERAL',
                           lsubstr='LITERAL', rsubstr='LITERAL', substr='LITERAL', trim='LITERAL', ltrim='LITERAL', rtrim='LITERAL', hex='LITERAL', subraw='TABCHAR', raw='TABCHAR')
 # builtins whose type() is complex for a complex first argument and decimal otherwise
 BUILTIN_FOLLOWS_COMPLEX = {'cos', 'exp', 'log', 'sin', 'sqrt', 'tan', 'ceil', 'floor', 'round', 'acos', 'asin', 'atan', 'cosh', 'sinh', 'tanh', 'log10'}
+# builtins typed like their first argument / like an arithmetic operator on two numbers
+BUILTIN_SAME_AS_ARG1 = {'abs', 'sign', 'clamp'}
+BUILTIN_ARITH2 = {'max', 'min', 'mod'}
 BUILTINS_GENERIC = [
     ('abs', 'ABSExpression', 1), ('acos', 'ACOSExpression', 1), ('asin', 'ASINExpression', 1), ('atan', 'ATANExpression', 1), ('atan2', 'ATAN2Expression', 2),
     ('bool', 'BOOLExpression', 1), ('ceil', 'CEILExpression', 1), ('clamp', 'CLAMPExpression', 3), ('cos', 'COSExpression', 1), ('cosh', 'COSHExpression', 1),
@@ -428,6 +432,7 @@ BUILTINS_GENERIC = [
     ('sinh', 'SINHExpression', 1), ('sqrt', 'SQRTExpression', 1), ('strlen', 'STRLENExpression', 1), ('tan', 'TANExpression', 1), ('tanh', 'TANHExpression', 1),
     ('typeof', 'TYPEOFExpression', 1), ('lower', 'LOWERExpression', 1), ('upper', 'UPPERExpression', 1), ('lsubstr', 'LSUBSTRExpression', 2), ('rsubstr', 'RSUBSTRExpression', 2),
     ('substr', 'SUBSTRExpression', 3), ('strpos', 'STRPOSExpression', 3), ('subraw', 'SUBRAWExpression', 3), ('raw', 'RAWExpression', 2),
+    ('num', 'NUMExpression', 1, 8, 'std::stod on a string of at most 2 characters (operand bound)', 2), ('isnum', 'ISNUMExpression', 1, 8, 'character loop over a string of at most 2 characters (operand bound)', 2), ('getenv', 'GETENVExpression', 1),
     ('int', 'INTExpression', 1, 8, 'sign / blank skipping loop over a string of at most 2 characters (operand bound)', 2),
     ('trim', 'TRIMExpression', 1, 8, 'character loops over a string of at most 2 characters (operand bound)', 2),
     ('ltrim', 'LTRIMExpression', 1, 8, 'character loops over a string of at most 2 characters (operand bound)', 2),
